@@ -13,6 +13,8 @@ import (
 	"unsafe"
 
 	gvisorchecksum "gvisor.dev/gvisor/pkg/tcpip/checksum"
+	"runtime/debug"
+	"syscall"
 )
 
 type c25Pat struct {
@@ -85,6 +87,53 @@ func c25NewArena(maxLen int) *c25Arena {
 	}
 	copy(a.work, a.poison)
 	return a
+}
+
+// c25Fenced is a mapping [no-access page][data pages][no-access page]: a buffer that ends flush with the end of the data
+// pages (or starts at their start) lets a read outside the buffer fault instead of silently reading a neighbour.
+type c25Fenced struct {
+	mem  []byte
+	page int
+	data []byte
+}
+
+func c25NewFenced(maxLen int) (*c25Fenced, error) {
+	page := syscall.Getpagesize()
+	dataLen := ((maxLen + page - 1) / page) * page
+	if dataLen == 0 {
+		dataLen = page
+	}
+	mem, err := syscall.Mmap(-1, 0, dataLen+2*page, syscall.PROT_READ|syscall.PROT_WRITE, syscall.MAP_ANON|syscall.MAP_PRIVATE)
+	if err != nil {
+		return nil, err
+	}
+	if err := syscall.Mprotect(mem[:page], syscall.PROT_NONE); err != nil {
+		return nil, err
+	}
+	if err := syscall.Mprotect(mem[page+dataLen:], syscall.PROT_NONE); err != nil {
+		return nil, err
+	}
+	return &c25Fenced{mem: mem, page: page, data: mem[page : page+dataLen]}, nil
+}
+
+// atEnd / atStart copy src into the data pages flush with their end / start (cap == len)
+func (f *c25Fenced) atEnd(src []byte) []byte {
+	s := len(f.data) - len(src)
+	copy(f.data[s:], src)
+	return f.data[s:len(f.data):len(f.data)]
+}
+func (f *c25Fenced) atStart(src []byte) []byte {
+	copy(f.data, src)
+	return f.data[:len(src):len(src)]
+}
+
+// c25Faults runs fn and reports whether it faulted (an access outside accessible memory)
+func c25Faults(fn func()) (fault any) {
+	old := debug.SetPanicOnFault(true)
+	defer debug.SetPanicOnFault(old)
+	defer func() { fault = recover() }()
+	fn()
+	return nil
 }
 
 // place materialises src at start offset off from the aligned base and returns the slice (cap == len).
@@ -207,6 +256,11 @@ func TestVerif_C25(t *testing.T) {
 		}
 	}
 	arena = c25NewArena(maxLen)
+	fenced, ferr := c25NewFenced(maxLen)
+	if ferr != nil {
+		res.Extra["fenced_unavailable"] = ferr.Error()
+		fenced = nil
+	}
 	if uintptr(unsafe.Pointer(&arena.work[arena.base]))%c25Align != 0 {
 		t.Fatalf("backing array is not 64-byte aligned")
 	}
@@ -290,6 +344,41 @@ func TestVerif_C25(t *testing.T) {
 				t.Fatalf("vector %d: %d initial values expected, %d given", vi, len(cfg.Inits), len(exp))
 			}
 			res.Case(fmt.Sprintf("%s/%d/%d", patDesc, v.Len, off))
+			// the same buffer flush with the end / the start of accessible memory: its start address modulo 64 is then
+			// (-len) mod 64 / 0, so TLC's expectation for that start offset applies
+			if fenced != nil && v.Len <= len(fenced.data) {
+				var placements []string
+				if off == (c25Align-v.Len%c25Align)%c25Align {
+					placements = append(placements, "end")
+				}
+				if off == 0 {
+					placements = append(placements, "start")
+				}
+				for _, where := range placements {
+					fb := fenced.atStart(buf)
+					if where == "end" {
+						fb = fenced.atEnd(buf)
+					}
+					for n, init := range cfg.Inits {
+						if n > 1 {
+							break
+						}
+						for _, im := range impls {
+							var got uint16
+							if f := c25Faults(func() { got = im.fn(fb, uint16(init)) }); f != nil {
+								res.Mismatch(fmt.Sprintf("fault:%s:%s:flush-with-%s-of-memory:%s", im.name, pat, where, c25TailClass(v.Len)),
+									fmt.Sprintf("%s faulted on a %d-byte buffer that is flush with the %s of accessible memory (it reads outside the buffer): %v", im.name, v.Len, where, f),
+									map[string]any{"impl": im.name, "len": v.Len, "off": off, "where": where})
+								continue
+							}
+							res.Hit("fenced:" + where)
+							if got != uint16(exp[n]) {
+								check("fenced:", im, pat, fb, off, init, uint16(exp[n]))
+							}
+						}
+					}
+				}
+			}
 			for n, init := range cfg.Inits {
 				for _, im := range impls {
 					check("", im, pat, buf, off, init, uint16(exp[n]))
